@@ -184,6 +184,11 @@ impl Model {
         for (i, m) in self.modules.iter().enumerate() {
             if self.module_alive(i) {
                 v.push(900 + m.version as u64);
+                // constants of script-declared aggregate types holding a tracked value
+                // (record, Option, enum payload, anonymous record): added after seeded change C11-7
+                for base in [910, 920, 930, 940] {
+                    v.push(base + m.version as u64);
+                }
                 if !gens.contains(&m.rt_gen) {
                     gens.push(m.rt_gen);
                 }
@@ -300,16 +305,30 @@ fn cached(tier: Tier) -> &'static (Vec<(Vec<Op>, Op)>, usize) {
 // ------------------------------------------------------------ real objects
 
 const V1: &str = "\
+record Rk { a: u64, t: Tr }
+enum Ek { A(Tr), B }
 const KZ: Z = mkz();
 const KT: Tr = mk(901);
 const KI: u64 = 11;
+const KR: Rk = Rk { a: 1, t: mk(911) };
+const KO: Tr? = Option.Some(mk(921));
+const KE: Ek = Ek.A(mk(931));
+const KA: { n: u64, t: Tr } = { n: 2, t: mk(941) };
+fn g() -> u64 { KR.a + KA.n }
 fn f(x: u64) -> u64 { x + KI + cap() + cap2() - 801 + RC.payload() + KT.payload() }
 fn mk_list() -> List[String] { [\"a\", \"b\"] }
 ";
 const V2: &str = "\
+const KA: { n: u64, t: Tr } = { n: 2, t: mk(942) };
+const KE: Ek = Ek.A(mk(932));
+const KO: Tr? = Option.Some(mk(922));
+const KR: Rk = Rk { a: 1, t: mk(912) };
 const KT: Tr = mk(902);
 const KZ: Z = mkz();
 const KI: u64 = 22;
+enum Ek { A(Tr), B }
+record Rk { a: u64, t: Tr }
+fn g() -> u64 { KR.a + KA.n }
 fn helper(x: u64) -> u64 { x * 2 }
 fn f(x: u64) -> u64 { helper(x) + KI + cap() + cap2() - 801 + RC.payload() + KT.payload() }
 fn mk_list() -> List[String] { let l = [\"a\"]; l.push(\"b\"); l }
